@@ -28,6 +28,9 @@ type Options struct {
 	// approximate number of instructions per function (default 40).
 	MaxFuncs int
 	MaxBody  int
+	// InlineFuncExportsOnly prints every function export inline (no separate
+	// (export "x" (func …)) fields); anonymous functions are then not exported.
+	InlineFuncExportsOnly bool
 	// Disable switches construct classes off (keys = Feature* constants).
 	// Checks use it to exclude classes listed as known findings.
 	Disable map[string]bool
@@ -45,6 +48,7 @@ const (
 	FeatNumericFuncRef    = "numeric_func_ref" // elem / export referring to a function by index
 	FeatNumericIdent      = "numeric_ident"    // identifiers made of digits only ($1)
 	FeatHardExportName    = "export_name_hard" // export names with space, quote, backslash, non-ASCII
+	FeatEmptyExportName   = "export_name_empty"
 	FeatDupExplicitType   = "dup_explicit_type"
 	FeatF64Global         = "f64_global"
 	FeatLimitsMaxZero     = "limits_max_zero" // (memory 0 0) / (table 0 0 funcref)
@@ -239,8 +243,12 @@ func (g *gen) exportName(label, hint string) string {
 	for try := 0; ; try++ {
 		s := hint
 		if g.on(FeatHardExportName) && g.chance(label+"/hard", 4) {
-			s = []string{"a b", "q\"uote", "back\\slash", "café", "tab\there", "", "x.y/z", "new\nline"}[g.intn(label+"/hk", 0, 7)]
+			s = []string{"a b", "q\"uote", "back\\slash", "café", "tab\there", "x.y/z", "new\nline"}[g.intn(label+"/hk", 0, 6)]
 			g.hit(FeatHardExportName)
+		}
+		if g.on(FeatEmptyExportName) && try == 0 && g.chance(label+"/empty", 1) {
+			s = ""
+			g.hit(FeatEmptyExportName)
 		}
 		if try > 0 {
 			s = fmt.Sprintf("%s_%d", s, try)
@@ -631,7 +639,7 @@ func (g *gen) module() {
 				f.Body = g.canonNaN(&f, f.Body, t)
 			}
 			m.Funcs = append(m.Funcs, f)
-			m.Exports = append(m.Exports, Export{Name: fmt.Sprintf("get_g%d", gi), Kind: ExternFunc, Index: uint32(m.NumFuncs() - 1), Inline: g.chance("getterinline", 50), ByName: true})
+			m.Exports = append(m.Exports, Export{Name: fmt.Sprintf("get_g%d", gi), Kind: ExternFunc, Index: uint32(m.NumFuncs() - 1), Inline: g.chance("getterinline", 50) || g.opt.InlineFuncExportsOnly, ByName: true})
 			g.usedNames[fmt.Sprintf("export:get_g%d", gi)] = true
 		}
 	}
@@ -661,7 +669,7 @@ func (g *gen) module() {
 				f.Body = g.canonNaN(&f, f.Body, ft.Results[0])
 			}
 			m.Funcs = append(m.Funcs, f)
-			m.Exports = append(m.Exports, Export{Name: fmt.Sprintf("tramp%d", ti), Kind: ExternFunc, Index: uint32(m.NumFuncs() - 1), Inline: g.chance("trampinline", 50), ByName: true})
+			m.Exports = append(m.Exports, Export{Name: fmt.Sprintf("tramp%d", ti), Kind: ExternFunc, Index: uint32(m.NumFuncs() - 1), Inline: g.chance("trampinline", 50) || g.opt.InlineFuncExportsOnly, ByName: true})
 			g.usedNames[fmt.Sprintf("export:tramp%d", ti)] = true
 			g.hit(FeatCallIndirect)
 		}
@@ -710,9 +718,12 @@ func (g *gen) exports(nf, startPos int) {
 	addFuncExport := func(idx uint32, name string) {
 		e := Export{Name: name, Kind: ExternFunc, Index: idx}
 		fname := m.FuncName(idx)
-		e.Inline = g.chance("exinline", 50)
+		e.Inline = g.chance("exinline", 50) || g.opt.InlineFuncExportsOnly
 		if e.Inline && fname == "" && !g.on(FeatAnonInlineExport) {
 			e.Inline = false
+		}
+		if !e.Inline && g.opt.InlineFuncExportsOnly {
+			return
 		}
 		if !e.Inline {
 			e.ByName = fname != ""
@@ -757,7 +768,7 @@ func (g *gen) exports(nf, startPos int) {
 		}
 	}
 	// an imported function may be re-exported too
-	if g.nImpF > 0 && g.chance("eximport", 15) {
+	if g.nImpF > 0 && !g.opt.Exec && !g.opt.InlineFuncExportsOnly && g.chance("eximport", 15) { // (the vendored wazero cannot call a re-exported host function)
 		idx := uint32(g.intn("eximportk", 0, g.nImpF-1))
 		if m.FuncName(idx) != "" || g.on(FeatNumericFuncRef) {
 			e := Export{Name: g.exportName("exname", fmt.Sprintf("imp%d", idx)), Kind: ExternFunc, Index: idx, ByName: m.FuncName(idx) != ""}
